@@ -264,7 +264,7 @@ inductive Op where
   | cgetn (h : Nat) (count : Option Int)
   | buf (frames ch : Int) (num : Option Int) (alloc : Bool) (cm : Completion)
   | balloc (h : Nat) (cm : Completion)
-  | bufcons (n frames ch : Int) (cm : Completion)
+  | bufcons (n frames ch : Int) (num : Option Int) (cm : Completion)
   | bfree (h : Nat) (cm : Completion)
   | bfreeall
   | bzero (h : Nat) (cm : Completion)
@@ -566,14 +566,21 @@ def Core.stepCore (c : Core) : Op → Res
       match b.bufnum with
       | some i => c.send "/b_alloc" [ai i, optInt b.frames, optInt b.channels, complArg cm i]
       | none => c.exc "BufferAlreadyFreed"
-  | .bufcons n frames ch cm =>
-    match allocIn c.balloc n with
-    | some (a', some x) =>
-      let ids := (List.range n.toNat).map fun i => ((x + i : Nat) : Int)
-      let c := { c with balloc := a', bufs := c.bufs ++ ids.map fun b => ⟨some b, some frames, some ch⟩ }
+  | .bufcons n frames ch num cm =>
+    match num with
+    | some b0 =>
+      -- user-managed numbers: nothing is taken from the allocator
+      let ids := (List.range n.toNat).map fun (i : Nat) => b0 + (i : Int)
+      let c := { c with bufs := c.bufs ++ ids.map fun b => ⟨some b, some frames, some ch⟩ }
       (c, .okBufs ids, ids.map fun b => .msg ⟨"/b_alloc", [ai b, ai frames, ai ch, complArg cm b]⟩)
-    | some (_, none) => c.exc "Exception"
-    | none => c.exc "AllocatorError"
+    | none =>
+      match allocIn c.balloc n with
+      | some (a', some x) =>
+        let ids := (List.range n.toNat).map fun i => ((x + i : Nat) : Int)
+        let c := { c with balloc := a', bufs := c.bufs ++ ids.map fun b => ⟨some b, some frames, some ch⟩ }
+        (c, .okBufs ids, ids.map fun b => .msg ⟨"/b_alloc", [ai b, ai frames, ai ch, complArg cm b]⟩)
+      | some (_, none) => c.exc "Exception"
+      | none => c.exc "AllocatorError"
   | .bfree h cm =>
     match c.bufs[h]? with
     | none => c.skip
